@@ -51,6 +51,9 @@ def cases(tier):
                 yield dict(kind="overwrites", oneoff=oneoff, cov=subset[0], cap=subset[1], alloc=subset[2], dt=dt)
                 if any(subset):
                     yield dict(kind="overwrites", oneoff=oneoff, cov=subset[0], cap=subset[1], alloc=subset[2], dt=dt, zero=True)  # the overwrite values are exactly 0
+                    # the overwritten program is the first / the last of a set of three; overwrite values so large that the per-step coverage exceeds 1
+                    for pos in ("first", "last"):
+                        yield dict(kind="overwrites", oneoff=oneoff, cov=subset[0], cap=subset[1], alloc=subset[2], dt=dt, big=True, others=pos)
     for oneoff in (True, False):
         for field in ("spend", "uc", "cap", "sat"):
             yield dict(kind="stepped", oneoff=oneoff, field=field)
@@ -168,9 +171,19 @@ def run_overwrites(case):
     oneoff, dt = case["oneoff"], case["dt"]
     t = np.array([2020.0, 2021.0])
     ps = one_prog_set(oneoff)
+    if case.get("others"):
+        # two more programs in the set, after / before the overwritten one
+        import sciris as sc
+
+        progs = sc.odict()
+        extra = [("Q1", make_prog(True, 3.0, None, None, spend=30.0)), ("Q2", make_prog(False, 5.0, None, None, spend=70.0))]
+        for k_, v_ in (([("P1", ps.programs["P1"])] + extra) if case["others"] == "first" else (extra + [("P1", ps.programs["P1"])])):
+            v_.name = k_
+            progs[k_] = v_
+        ps.programs = progs
     kw = {}
     z = bool(case.get("zero"))
-    vcov, vcap, valloc = (0.0, 0.0, 0.0) if z else (0.3, 20.0, 60.0)
+    vcov, vcap, valloc = (0.0, 0.0, 0.0) if z else ((7.0, 900.0, 4000.0) if case.get("big") else (0.3, 20.0, 60.0))
     if case["cov"]:
         kw["coverage"] = {"P1": vcov}
     if case["cap"]:
@@ -181,7 +194,11 @@ def run_overwrites(case):
     h0 = (snap_hash(ps), snap_hash(ins))
     elig = 80.0
     caps = ps.get_capacities(tvec=t, dt=dt, instructions=ins)
-    cov = ps.get_prop_coverage(tvec=t, dt=dt, capacities=caps, num_eligible={"P1": np.array([elig, elig])}, instructions=ins)
+    cov = ps.get_prop_coverage(tvec=t, dt=dt, capacities=caps, num_eligible={k_: np.array([elig, elig]) for k_ in ps.programs}, instructions=ins)
+    for k_, v_ in cov.items():
+        if np.any(np.asarray(v_) > 1 + 1e-12) or np.any(np.asarray(v_) < 0):
+            vs_pre = V("coverage-out-of-range", f"oneoff={oneoff} dt={dt!r} overwrites={sorted(kw)} big={bool(case.get('big'))} position={case.get('others')}: coverage of {k_} is {np.asarray(v_).tolist()}", None)
+            return dict(states=0, transitions=0, nontrivial=True, violations=[vs_pre], counters=dict(overwrite_cases=1))
     vs = []
     k = dt if oneoff else 1.0
     exp_cap = vcap * k if case["cap"] else (valloc if case["alloc"] else 100.0) / 2.0 * k
@@ -191,7 +208,7 @@ def run_overwrites(case):
         exp_cov = min(exp_cap / elig, 1.0)
     got_cap = float(caps["P1"][0])
     got_cov = float(cov["P1"][0])
-    lab = f"oneoff={oneoff} dt={dt!r} overwrites={[k for k in ('coverage', 'capacity', 'alloc') if k in kw]}" + (" with value 0" if z else "")
+    lab = f"oneoff={oneoff} dt={dt!r} overwrites={[k for k in ('coverage', 'capacity', 'alloc') if k in kw]}" + (" with value 0" if z else "") + (f" large values, overwritten program {case['others']} of three" if case.get("others") else "")
     if abs(got_cap - exp_cap) > 1e-12 * max(1, exp_cap):
         vs.append(V("overwrite-precedence-capacity", f"{lab}: capacity {got_cap!r}, expected {exp_cap!r}", None))
     if abs(got_cov - exp_cov) > 1e-12:
